@@ -1069,4 +1069,53 @@ def hostsMsg (db : HostsDB) (labels : List Str) (qtype : Nat) : HostsOut :=
 def hostsWire (db : HostsDB) (labels : List Str) (qtype : Nat) : HostsOut :=
   if qtype = 12 then lookupPTR db (present labels) else lookupKeyed db (foldedKey labels) qtype
 
+/-! ### what the decoded continuation of a request sees (`Request.materialize`,
+`Chain.detachStrictContext`, `dnsutil.SetEdns0` with ECS forwarding off) -/
+
+/-- The request as the handler behind edns reads it after `Chain.Materialize`, and the
+request-tree marker on its context. -/
+structure Continuation where
+  /-- `middleware.HasClientECS(ctx)`: the client sent a client-subnet option -/
+  ecsMarker : Bool
+  id : Nat
+  flags : Nat
+  labels : List Bytes
+  qtype : Nat
+  qclass : Nat
+  -- the normalized OPT every continuation carries: one OPT, advertised size, DO forced, no client option
+  optUDPSize : Nat
+  optDO : Bool
+  optVersion : Nat
+  optOptions : Nat
+deriving DecidableEq, Repr
+
+inductive ContOut where
+  | seen (c : Continuation)
+  | notimp
+  | badvers
+deriving DecidableEq, Repr
+
+def normalized (ecs : Bool) (id flags : Nat) (labels : List Bytes) (qtype qclass : Nat) : Continuation :=
+  { ecsMarker := ecs, id := id, flags := flags, labels := labels, qtype := qtype, qclass := qclass,
+    optUDPSize := DefaultMsgSize, optDO := true, optVersion := 0, optOptions := 0 }
+
+/-- message-born request: `EDNS.ServeDNS` decoded body marks client ECS from the message, `SetEdns0`
+rewrites the OPT in place, the next handler reads that message. -/
+def contMsg (m : SMsg) : ContOut :=
+  if (m.flags >>> 11) % 2 ^ 4 > 0 then .notimp else
+  match m.opt with
+  | none => .seen (normalized false m.id m.flags m.labels m.qtype m.qclass)
+  | some o =>
+    if o.version ≠ 0 then .badvers
+    else .seen (normalized (o.options.any (fun x => x.code == 8)) m.id m.flags m.labels m.qtype m.qclass)
+
+/-- wire-born request: the edns wire branch marks client ECS from the parsed facts and records the
+normalization; `Chain.Materialize` decodes the packet, applies it, and `detachStrictContext` carries
+the marker onto the detached context. -/
+def contWire (f : Facts) : ContOut :=
+  if ednsWireBranch f then
+    .seen (normalized ((f.opt.map (·.hasECS)).getD false) f.id f.flags f.labels f.qtype f.qclass)
+  else if (f.flags >>> 11) % 2 ^ 4 > 0 then .notimp
+  else .badvers
+
 end SdnsVerif.Model.WirePath
